@@ -5,7 +5,7 @@
 (*              tuple of precomputed lattice centroids (ordered for k <= 2, sorted for k = 3;    *)
 (*              2 features and k >= 2: from corners, centre and an edge midpoint),               *)
 (*              budgets 1..MaxB, n_runs 1..3, new observations = the whole grid plus one point outside on     *)
-(*              either side.  Metric / float type / calling form: all variants for n <= 3 - f,   *)
+(*              either side.  Metric / float type: all variants for n = 1,                         *)
 (*              one variant picked by a checksum of the input otherwise (half of them f64 + l2). *)
 (*  Every case also names one of 8 memory layouts (reversed / strided views, F order) for its records.  *)
 (*  "restart" : datasets as above (n >= 2), k, initialiser random / k-means++ (n_runs 1..Runs)   *)
@@ -40,10 +40,14 @@ Check(pts, c0) ==
 
 \* <<float type, metric, calling form>>
 Variants(f) == <<
-  <<"f64", "l2", "owned">>, <<"f64", "l2", "view">>, <<"f64", "l2", "owned">>, <<"f64", "l2", "owned">>,
+  <<"f64", "l2", "owned">>, <<"f64", "l2", "view">>, <<"f64", "lp3", "owned">>, <<"f64", "l2", "owned">>,
   <<"f32", "l2", "owned">>, <<"f64", "l1", "owned">>,
-  <<"f64", IF f = 1 THEN "l1" ELSE "linf", "view">>, <<"f32", IF f = 1 THEN "l2" ELSE "l1", "owned">> >>
-VarSet(f, n, h) == IF n <= 3 - f THEN {Variants(f)[v] : v \in 1..8} ELSE {Variants(f)[(h % 8) + 1]}
+  <<"f64", IF f = 1 THEN "l1" ELSE "linf", "view">>, <<"f32", IF f = 1 THEN "l2" ELSE "l1", "owned">>,
+  <<"f64", "lp1", "owned">>, <<"f64", "lp2", "owned">>, <<"f64", "lp3", "owned">>, <<"f64", "l2", "owned">> >>
+NV == 12
+\* lp3 (cubes, denominators den^3) only where every product stays below 2^31: n <= 4
+Guard(v, n) == IF v[2] = "lp3" /\ n > 4 THEN <<v[1], "lp1", v[3]>> ELSE v
+VarSet(f, n, h) == IF n = 1 THEN {Guard(Variants(f)[v], n) : v \in 1..NV} ELSE {Guard(Variants(f)[(h % NV) + 1], n)}
 
 \* memory layout in which the harness hands the (same logical) records to fit / predict / transform
 Layouts == <<"owned", "view", "revf", "revr", "revb", "forder", "row2", "col2">>
@@ -54,7 +58,7 @@ Layout(h) == Layouts[((h \div 4) % 8) + 1]
 Tiny == <<1, 1000000000>>
 TolSet(f, n, v, h) ==
   IF v[2] # "l2" THEN {Tiny}
-  ELSE IF n <= 3 - f /\ v = <<"f64", "l2", "owned">> THEN {Tiny, <<1, 2>>, <<3, 2>>}
+  ELSE IF n = 1 /\ v = <<"f64", "l2", "owned">> THEN {Tiny, <<1, 2>>, <<3, 2>>}
   ELSE {<<Tiny, Tiny, <<1, 2>>, <<3, 2>>>>[((h \div 8) % 4) + 1]}
 
 \* precomputed centroids: 1 feature: any grid points; 2 features, k >= 2: corners, centre and one edge midpoint
@@ -75,7 +79,7 @@ Traj ==
        case = [kind |-> "traj",
                inp |-> [ft |-> v[1], metric |-> v[2], form |-> Layout(Check(pts, c0) + Len(v[1]) + Len(v[2])),
                         f |-> f, pts |-> pts, c0 |-> c0,
-                        qs |-> Queries(f, g), ms |-> [m \in 1..(IF n <= DeepN THEN MaxB + 1 ELSE MaxB) |-> m],
+                        qs |-> Queries(f, g), ms |-> [m \in 1..(IF n <= DeepN /\ v[2] # "lp3" THEN MaxB + 1 ELSE MaxB) |-> m],
                         \* restarts from the same precomputed centroids: n_runs must not change anything
                         nruns |-> <<1, 2, 1, 3>>[((Check(pts, c0) \div 32) % 4) + 1],
                         tol |-> tol]]
@@ -88,7 +92,7 @@ Restart ==
      \E k \in 1..(IF n < MaxK THEN n ELSE MaxK) :
      \E pts \in SortedSeqs(P, n), init \in {"random", "kmpp", "kmpara"}, seed \in Seeds :
      LET h == Check(pts, <<>>) + k + seed
-         v == Variants(f)[(h % 8) + 1]
+         v == Variants(f)[(h % NV) + 1]
          \* iteration budgets: 1, 2, 3 one after the other (same seed), or run to convergence
          mi == IF (h \div 8) % 2 = 0 THEN <<1, 2, 3>> ELSE <<300>>
      IN
